@@ -321,8 +321,12 @@ def build(case):
     def has(u):
         return bool(uses & UBIT[u])
 
+    def eff(n):
+        # kind "a" (B only): a second symbol on the very block (or proxy) A refers to - an alias
+        return kind["A"] if kind[n] == "a" else kind[n]
+
     def expr_for(name, role, sub):
-        internal = kind[name] != "p"
+        internal = eff(name) != "p"
         # non-zero addends where the CFG does not care: code references +4 (A) / +0 (others), data words +16 / +8
         addend = 0
         if role == "code":
@@ -352,7 +356,7 @@ def build(case):
         return b, marks
 
     def can_call(n):
-        return kind[n] in "cp"
+        return eff(n) in ("cpl" if kind[n] == "a" else "cp")
 
     blocks = {}
     marks = {}
@@ -402,6 +406,8 @@ def build(case):
             blocks["d" + n] = add_data_block(dbi, bytes([0xE0 + i]) * 8)
             sym[n].referent = blocks["d" + n]
     w.blocks, w.marks = blocks, marks
+    if kind["B"] == "a":
+        sym["B"].referent = sym["A"].referent
 
     # CFG
     cfg = ir.cfg
@@ -424,6 +430,8 @@ def build(case):
         add_edge(cfg, B["m5"], sym["A"].referent, ET.Branch)
     else:
         add_edge(cfg, B["m5"], add_proxy_block(m), ET.Return)
+    if kind["B"] == "a":
+        callers["A"] = callers["A"] + callers["B"]  # a call of the alias is a call of A's function
     for n in "ABC":
         if kind[n] == "c":
             add_edge(cfg, B["e" + n], B["b" + n], ET.Fallthrough)
@@ -464,6 +472,8 @@ def build(case):
     fwd[sym["F3"]] = sym["C"]
     fwd[sym["F5"]] = sym["B"]
     m.aux_data["symbolForwarding"].data = fwd
+    if kind["B"] == "a":
+        kind["B"] = kind["A"]  # from here on (prediction) B is what A is
     return w
 
 
@@ -1077,11 +1087,12 @@ def popcount(x):
 
 ALL_KINDS = ["".join(k) for k in itertools.product("cdp", repeat=3)]
 LABEL_KINDS = ["l" + "".join(k) for k in itertools.product("cdp", repeat=2)]
+ALIAS_KINDS = [a + "a" + c for a in "cdpl" for c in "cp"]  # B is a second name for what A refers to
 
 
 def tasks(tier):
     t = []
-    for kinds in ALL_KINDS + LABEL_KINDS:
+    for kinds in ALL_KINDS + LABEL_KINDS + ALIAS_KINDS:
         label = kinds[0] == "l"
         for pie in (0, 1):
             t.append({"g": "x64-elf", "abi": "x64-elf", "pie": pie, "kinds": kinds, "part": "subsets"})
